@@ -274,12 +274,24 @@ def fam_lock(draw):
 
 @st.composite
 def fam_global(draw):
-    return draw(st.sampled_from([
-        "x = 1\nglobal x\nprint(x)\n",
-        "global y\ny = 2\nprint(y)\n",
-        "def f():\n    global z\n    z = 3\nf()\nglobal z\nprint(z)\n",
-        "if True:\n    global w\nw = 4\nprint(w)\n",
+    """`global` at module level is a no-op the codemod removes; the same statement in a class body (or anywhere else)
+    changes where the assignment lands and must stay.  (A module-level `global` before/after an assignment of the same
+    name that CPython rejects does not compile and is discarded.)"""
+    name = draw(st.sampled_from(["retries", "w", "cfg"]))
+    site = draw(st.sampled_from([
+        "global {n}\n{n} = 2\n",
+        "if True:\n    global {n}\n    {n} = 4\n",
+        "for _i in (1,):\n    global {n}\n    {n} = _i\n",
+        "try:\n    global {n}\n    {n} = 6\nfinally:\n    pass\n",
+        "class Settings:\n    global {n}\n    {n} = 5\n",
+        "class Settings:\n    x = 0\n    class Inner:\n        global {n}\n        {n} = 7\n",
+        "def f():\n    global {n}\n    {n} = 3\nf()\n",
+        "class K:\n    def m(self):\n        global {n}\n        {n} = 8\nK().m()\n",
+        "global {n}\nclass Settings:\n    global {n}\n    {n} = 9\n",
     ]))
+    pre = draw(st.sampled_from(["", "", "other = 1\n"]))
+    post = "print({n})\nprint(sorted(k for k in list(globals().get('Settings', type('E', (), {{}})).__dict__) if not k.startswith('__')))\n"
+    return (pre + site + post).format(n=name)
 
 
 MODS = ["os", "sys", "json", "math", "collections", "itertools", "re", "string"]
@@ -373,6 +385,78 @@ FAMILIES = {
 }
 
 
+# ------------------------------------------------------------------ packages (relative imports)
+
+PKG_MODULES = ["top", "top.base", "top.util", "top.app", "top.app.base", "top.app.util", "top.app.sub", "top.app.sub.base", "top.app.sub.util"]
+PKG_LINES = [
+    ("from ..util import TAG as parent_tag", "parent_tag"),
+    ("from .util import TAG as sibling_tag", "sibling_tag"),
+    ("from .. import util as up_util", "up_util.TAG"),
+    ("from . import util as here_util", "here_util.TAG"),
+    ("from ...base import TAG as root_tag", "root_tag"),
+    ("from ..base import TAG as mid_tag", "mid_tag"),
+    ("from .base import TAG as low_tag", "low_tag"),
+    ("from ... import util as top_util", "top_util.TAG"),
+    ("import os", "os.sep"),
+    ("import sys", "sys.version_info[0]"),
+    ("from json import dumps", "dumps(1)"),
+    ("import math", None),
+    ("from ..util import TAG as unused_tag", None),
+]
+
+
+@st.composite
+def pkg_case(draw):
+    """A module three packages deep whose import block mixes relative imports of every level with absolute ones;
+    same-named modules exist at every level, so an import resolved at the wrong level prints another tag."""
+    chosen = draw(st.lists(st.sampled_from(PKG_LINES), min_size=3, max_size=8, unique=True))
+    body = "\n".join(l for l, _ in chosen) + "\n\n" + "".join(f"print({e!r}, {e})\n" for _, e in chosen if e) + "print('main done')\n"
+    return body
+
+
+def pkg_files(main_src):
+    files = {}
+    for m in PKG_MODULES:
+        parts = m.split(".")
+        is_pkg = any(o.startswith(m + ".") for o in PKG_MODULES)
+        rel = "/".join(parts) + ("/__init__.py" if is_pkg else ".py")
+        files[rel] = "" if is_pkg else f"TAG = {m!r}\n"
+    files["top/app/sub/main.py"] = main_src
+    return files
+
+
+def judge_package(cid, main_src, stats):
+    files = pkg_files(main_src)
+    with runner.scratch("c08p") as sd:
+        root = Path(sd)
+        proj = root / "proj"
+        runner.write_tree(proj, files)
+        out = root / "out.codetf"
+        res = runner.run_cli([str(proj), "--output", str(out), "--codemod-include", cid], cwd=str(root), output=out, timeout=600)
+        if res.exit != 0:
+            stats.discard(f"run-exit-{res.exit}")
+            return
+        after = {rel: (proj / rel).read_text() for rel in files}
+        labels = ["codemod:" + cid, "package"]
+        if after == files:
+            stats.case([cid, main_src], False, labels + ["unchanged"])
+            return
+        driver = "import top.app.sub.main\n"
+        o1 = execobs.observe(driver, root / "a", files=files)
+        o2 = execobs.observe(driver, root / "b", files=after)
+    if o1["timed_out"] or o2["timed_out"]:
+        stats.discard("timeout")
+        return
+    stats.case([cid, main_src], bool(o1["stdout"].strip()), labels + ["changed"], sample={"codemod": cid, "before": main_src[:700], "after": after["top/app/sub/main.py"][:700], "stdout": o1["stdout"][:300]})
+    if o1["stdout"] != o2["stdout"] or o1["exc"] != o2["exc"]:
+        kind = "output-differs" if o1["stdout"] != o2["stdout"] else "exception-differs"
+        stats.violation(cid, kind, {"codemod": cid, "package_main": main_src, "features": ["package"]},
+                        json.dumps({"before": main_src, "after": after["top/app/sub/main.py"], "observed_before": o1, "observed_after": o2})[:7000], features=["package"])
+
+
+PACKAGE_CODEMODS = ["pixee:python/order-imports", "pixee:python/unused-imports"]
+
+
 def judge_batch(cid, programs, stats):
     """Transform all programs in one CLI run, then execute before/after."""
     rendered = []
@@ -441,10 +525,15 @@ def run_shard(spec):
         batch = spec["batch"] * (1 if engine.kind_of(engine.codemod_by_id(cid)) == "rule" else 2)
         strat = st.lists(fam(), min_size=batch, max_size=batch)
         core.drive(strat, lambda progs, cid=cid: judge_batch(cid, progs, stats), spec["n"], spec["seed"] + engine.hash_str(cid) % 997)
+        if cid in PACKAGE_CODEMODS:
+            core.drive(pkg_case(), lambda src, cid=cid: judge_package(cid, src, stats), spec["n"] * 4, spec["seed"] + 5)
     return stats
 
 
 def replay(case):
     st_ = core.Stats()
+    if "package_main" in case:
+        judge_package(case["codemod"], case["package_main"], st_)
+        return st_.violations
     judge_batch(case["codemod"], [(case["src"], case.get("features", []))], st_)
     return st_.violations
